@@ -595,3 +595,39 @@ func init() {
 
 // payload sizes of the 29 MAC commands in spec-table order (harness/root/spec_mac.go)
 var specSizes = []int{1, 2, 4, 1, 4, 5, 1, 1, 4, 1, 1, 5, 2, 1, 4, 3, 1, 1, 1, 1, 2, 1, 1, 1, 1, 1, 1, 1, 1}
+
+func init() {
+	register(&PropSpec{
+		ID:   "C09",
+		Pkgs: []string{"root"},
+		Items: func(tier string, seed int64) []Item {
+			var it []Item
+			for _, l := range pick(tier, rng(0, 24), append(rng(0, 48), 64)) {
+				it = append(it, Item{PkgKey: "root", Func: "VerifC09_Frame", Shape: []int{l, pick(tier, []int{2}, []int{3})[0]}})
+			}
+			for _, l := range pick(tier, []int{0, 4, 8, 12}, []int{0, 1, 2, 3, 4, 8, 12, 16, 20}) {
+				it = append(it, Item{PkgKey: "root", Func: "VerifC09_Text", Shape: []int{l}})
+			}
+			for _, l := range rng(0, 30) {
+				it = append(it, Item{PkgKey: "root", Func: "VerifC09_CFList", Shape: []int{l}})
+			}
+			for _, l := range rng(0, 24) {
+				it = append(it, Item{PkgKey: "root", Func: "VerifC09_Payloads", Shape: []int{l}})
+			}
+			for _, l := range pick(tier, rng(0, 4), rng(0, 6)) {
+				it = append(it, Item{PkgKey: "root", Func: "VerifC09_MAC", Shape: []int{l}})
+			}
+			for i := 0; i < nMacSpecs; i++ {
+				for l := 0; l <= 7; l++ {
+					it = append(it, Item{PkgKey: "root", Func: "VerifC09_MACPayload", Shape: []int{i, l}})
+				}
+			}
+			for _, n := range pick(tier, []int{0, 1, 2, 3, 6, 8}, append(rng(0, 10), 16, 32, 34)) {
+				it = append(it, Item{PkgKey: "root", Func: "VerifC09_IdentText", Shape: []int{n}})
+			}
+			return it
+		},
+		Bounds: func(tier string) map[string]string { return map[string]string{} },
+		Stubs:  append(append([]string{}, stubCrypto...), stubErrors...),
+	})
+}
